@@ -41,6 +41,18 @@ CLAIMED = {
    design="7/C17",
    note="Trusted: Coq kernel, translator, harness; struct IEEE unpacking and text decoding are CPython's (latin1 = identity in the runs).",
    technique="Coq proof (round-trip by induction over the parameter list, bitmap lemma) + translator facts + vm_compute correspondence"),
+ "C16": dict(
+   text="Coq theorems: the regular expression built from a LIKE pattern (Model/Like.v, a regex AST with a denotational match "
+        "relation) matches exactly the strings SQL LIKE matches, for every pattern and string, and a pattern without wildcards matches "
+        "only itself; the column listing derived from a nested mapping (Model/Catalog.v) is complete and sound for every mapping, "
+        "keeps declaration order, SHOW COLUMNS is exactly the filter by table/database/LIKE, and TABLES / SCHEMATA list every "
+        "declared table / database exactly once (NoDup + membership both ways). Function bodies of schema.py/session.py regenerated as "
+        "facts. Tie: LIKE exhaustively over short patterns x names on like_to_regex and on SHOW VARIABLES LIKE, catalog queries on random "
+        "depth-2/3/4 mappings against the model, INFORMATION_SCHEMA.COLUMNS exactly-once, COM_FIELD_LIST at the wire.",
+   design="7/C16",
+   note="Trusted: Coq kernel, translator, harness; Python re as the regex engine (modelled by the denotational match relation), "
+        "sqlglot's executor evaluating the info-schema queries (exercised by the correspondence, not modelled).",
+   technique="Coq proof (induction over patterns / nested mappings) + translator facts + vm_compute correspondence"),
  "C07": dict(
    text="Coq theorems: every packet parser of the model (COM_QUERY with attributes, COM_STMT_EXECUTE, handshake response, "
         "COM_CHANGE_USER, connect attributes, parameter blocks) is total on every byte string with fuel = packet length + 1 - i.e. "
